@@ -1,3 +1,4 @@
+import DcVerif.Gen.UGraphTypes
 import DcVerif.Lemmas.UGraph
 /-!
 # C08 — UltraGraph behaves as a directed-graph store under any operation sequence
@@ -441,5 +442,13 @@ example :
       [.idx 0, .idx 1, .idx 2, .ok, .ok, .ok, .ok, .ok, .nat 2, .pairs [(2, 0), (2, 2)], .idx 1, .optNat (some 8),
        .nats [0, 2], .ok, .bool true, .ok, .optNat none, .optNat (some 0), .nat 2] ∧
     (Spec.DiGraph.run empty (ops.zip (run .repaired init ops).2)).isSome = true := by decide
+
+/-- **model assumptions that are facts of the source** (regenerated by `tools/rs2lean.py ugraph` on every run): the model's
+node indices are unbounded naturals and its weights unbounded — sound as long as the real index type is 32 bits wide (an `add`
+can only wrap after 2^32 nodes, which no history reaches) and weights are 64-bit; the matrix graph is directed. A narrower index
+type breaks this obligation; the directed case `addmany 70000` of the generator then exhibits the wrap-around. -/
+theorem c08_index_and_weight_widths :
+    Gen.UGraphTypes.indexBits = 32 ∧ Gen.UGraphTypes.defaultIxBits = 32 ∧ Gen.UGraphTypes.weightBits = 64 ∧
+    Gen.UGraphTypes.directed = true := by decide
 
 end C08
